@@ -230,7 +230,7 @@ def _pre_state(root: str) -> dict:
     return out
 
 
-def exec_once(case: dict, plan: dict | None, ref_new: bytes | None, *, root: str | None = None, crash_at: int | None = None, rlimit_fsize: int | None = None) -> dict:
+def exec_once(case: dict, plan: dict | None, ref_new: bytes | None, *, root: str | None = None, crash_at: int | None = None, rlimit_fsize: int | None = None, rlimit_nofile: int | None = None) -> dict:
     """One execution with one fault plan.  Returns dict(violation, effects, fired, outcome, ...).
 
     With ``crash_at=k`` (used in a forked child only) the process dies with os._exit right at boundary k.
@@ -283,7 +283,9 @@ def exec_once(case: dict, plan: dict | None, ref_new: bytes | None, *, root: str
             if crash_at is not None and k == crash_at:
                 os._exit(17)  # the process dies between effect k-1 and k: nothing held only in memory survives
             state["boundaries"] += 1
-            if sharded or old is None or state["viol"] is not None:
+            if sharded or old is None or state["viol"] is not None or rlimit_nofile is not None:
+                # (under a real descriptor shortage the oracle must not open files itself: its own EMFILE would surface
+                # inside the intercepted call and abort the code under test)
                 return
             cur = fsseam.fresh_read(dest_req)
             if cur == old and not (state["seen_new"] and ref_new is not None and old != ref_new):
@@ -317,6 +319,13 @@ def exec_once(case: dict, plan: dict | None, ref_new: bytes | None, *, root: str
 
             signal.signal(signal.SIGXFSZ, signal.SIG_IGN)
             resource.setrlimit(resource.RLIMIT_FSIZE, (rlimit_fsize, resource.getrlimit(resource.RLIMIT_FSIZE)[1]))
+        if rlimit_nofile is not None:
+            # (forked child only) a REAL descriptor shortage: only rlimit_nofile more descriptors can be opened from now on;
+            # every open / dup beyond that fails with EMFILE, also inside C extensions
+            import resource
+
+            n_open = len(os.listdir("/proc/self/fd"))
+            resource.setrlimit(resource.RLIMIT_NOFILE, (n_open + rlimit_nofile, resource.getrlimit(resource.RLIMIT_NOFILE)[1]))
         seams = workload.Seams(case, sched, seam, streams)
         with seams:
             try:
@@ -334,6 +343,10 @@ def exec_once(case: dict, plan: dict | None, ref_new: bytes | None, *, root: str
             finally:
                 if sched is not None:
                     sched.close()
+        if rlimit_nofile is not None:
+            import resource
+
+            resource.setrlimit(resource.RLIMIT_NOFILE, (resource.getrlimit(resource.RLIMIT_NOFILE)[1],) * 2)
         # final boundary (after the last effect)
         seam.enabled = False
         on_boundary(len(seam.effects), "end", "")
@@ -504,6 +517,7 @@ def rlimit_crosscheck(case: dict, ref_new: bytes | None, rng, samples: int, inc)
         return None
     for _ in range(samples):
         limit = max(1, len(ref_new) - rng.choice([1, 1, 2, 7, max(1, len(ref_new) // 3), max(1, len(ref_new) // 2)]))
+        nofile = rng.choice([0, 1, 2, 3, 4]) if rng.random() < 0.4 else None
         root = workload.new_scratch("c08rlim")
         probe = workload.new_scratch("c08probe")
         try:
@@ -515,7 +529,7 @@ def rlimit_crosscheck(case: dict, ref_new: bytes | None, rng, samples: int, inc)
             if pid == 0:
                 code = 4
                 try:
-                    out = exec_once(case, None, ref_new, root=root, rlimit_fsize=limit)
+                    out = exec_once(case, None, ref_new, root=root, rlimit_fsize=limit if nofile is None else None, rlimit_nofile=nofile)
                     oc = out.get("outcome") or ""
                     code = 0 if oc == "returned" else (3 if oc.startswith("raised") else 4)
                 finally:
@@ -523,17 +537,19 @@ def rlimit_crosscheck(case: dict, ref_new: bytes | None, rng, samples: int, inc)
             _pid, status = os.waitpid(pid, 0)
             code = os.WEXITSTATUS(status) if os.WIFEXITED(status) else -1
             inc("rlimit_crosscheck_forks")
+            inc("rlimit_kind_descriptors" if nofile is not None else "rlimit_kind_file_size")
+            what_limit = f"only {nofile} more descriptors (RLIMIT_NOFILE)" if nofile is not None else f"a kernel file-size limit of {limit} bytes (complete new data: {len(ref_new)} bytes)"
             inc({0: "rlimit_child_save_returned", 3: "rlimit_child_save_raised"}.get(code, "rlimit_child_other"))
             cur = fsseam.fresh_read(os.path.join(root, "m", options["dest"]))
             if old is not None and cur != old and cur != ref_new:
                 what = "missing" if cur is None else f"{len(cur)} bytes"
-                return {"clause": "file-size-limit-damaged-destination", "detail": f"with a kernel file-size limit of {limit} bytes (complete new data: {len(ref_new)} bytes) the save {'returned' if code == 0 else 'raised' if code == 3 else 'ended'} and the destination holds {what}: neither the previous ({len(old)}) nor the complete new bytes", "key": "file-size-limit-damaged-destination"}
+                return {"clause": "file-size-limit-damaged-destination", "detail": f"with {what_limit} the save {'returned' if code == 0 else 'raised' if code == 3 else 'ended'} and the destination holds {what}: neither the previous ({len(old)}) nor the complete new bytes", "key": "file-size-limit-damaged-destination"}
             if code == 0 and cur != ref_new:
-                return {"clause": "file-size-limit-save-returned-incomplete", "detail": f"with a kernel file-size limit of {limit} bytes the save returned but the destination holds {None if cur is None else len(cur)} bytes instead of the complete {len(ref_new)}", "key": "file-size-limit-save-returned-incomplete"}
+                return {"clause": "file-size-limit-save-returned-incomplete", "detail": f"with {what_limit} the save returned but the destination holds {None if cur is None else len(cur)} bytes instead of the complete {len(ref_new)}", "key": "file-size-limit-save-returned-incomplete"}
             if code == 3 and cur == old:
                 extra = [x for x in fsseam.listing(os.path.join(root, "m")) if x not in pre_listing]
                 if extra:
-                    return {"clause": "temp-left-after-exception", "detail": f"file-size limit {limit}: the save raised, the destination is unchanged, but {extra} were left behind", "key": "temp-left-after-exception|rlimit"}
+                    return {"clause": "temp-left-after-exception", "detail": f"{what_limit}: the save raised, the destination is unchanged, but {extra} were left behind", "key": "temp-left-after-exception|rlimit"}
         finally:
             workload.rm_scratch(root)
             workload.rm_scratch(probe)
